@@ -91,7 +91,7 @@ prop(
     "abstract-model monitor: a Go map (sets) and the slice of all pushes since creation/Clear (ring) shadow the real container; after EVERY operation every query is compared: Has on the whole universe, Len, Values, "
     "Range with every early-stop point, Equal against equal / one-element-different / nil sets, String; for clones the frozen other side is re-observed after every later operation; ring: Len, Range, ReverseRange with every "
     "early stop, Current, and a fresh twin buffer from each Clear. Histories are enumerated exhaustively to the stated depth; a history is one case (all distinct by construction)",
-    [st("sets", "c11", "TestSets", timeout_q=600, timeout_t=2400), st("ring", "c11", "TestRing", timeout_q=600, timeout_t=1800)],
+    [st("sets", "c11", "TestSets", timeout_q=600, timeout_t=3600), st("ring", "c11", "TestRing", timeout_q=600, timeout_t=1800)],
     floors=[dict(stage="sets", key="set_histories", min=100_000), dict(stage="ring", key="ring_histories", min=50_000)],
     assumptions=["only documented nil-receiver behaviours are demanded", "values pushed into ring buffers are unique and non-zero so a stale slot is distinguishable"],
 )
